@@ -213,6 +213,10 @@ def judge(lang, t, lit, r):
             return {"error": "wrong value", "expected": want, "got": r["value"]}
         if lang == "cpp" and r["type"] != ("i" if signed else "u") + str(bits):
             return {"error": "wrong type", "got": r["type"]}
+        # C: the <stdint.h> constant macros give the promoted least type; for 32 and 64 bits that
+        # is the declared width and signedness
+        if lang == "c" and bits >= 32 and r.get("type") not in (None, "?") and r["type"] != ("i" if signed else "u") + str(bits):
+            return {"error": "wrong type", "got": r["type"], "expected": ("i" if signed else "u") + str(bits)}
         if lang == "rust" and r["type"] != RUST_T[t]:
             return {"error": "wrong type", "got": r["type"]}
         if lang == "java" and JAVA_W.get(r["type"]) != bits:
@@ -223,6 +227,9 @@ def judge(lang, t, lit, r):
     if t == "float32":
         want = struct.unpack("<f", struct.pack("<f", want))[0]
     got = r["value"][1] if isinstance(r["value"], tuple) else float(r["value"])
+    if t == "float32":
+        # probes print an f32 either widened to double or in its shortest decimal form
+        got = struct.unpack("<f", struct.pack("<f", got))[0]
     if got != want:
         return {"error": "wrong value", "expected": want, "got": got}
     if lang == "rust" and r["type"] != RUST_T[t]:
@@ -308,8 +315,11 @@ def run(ctx, prop):
     # ---- (2) value and type of every emitted constant in every backend
     consts = []
     for t in list(INTS) + list(FLOATS):
-        lits = int_literals(t, ctx.rng) if t in INTS else ["0.0", "1.5", "-2.25", "3", "0x10", "100.125", "007.5"]
-        pick = lits if ctx.tier == "thorough" else ctx.rng.sample(lits, min(len(lits), 5))
+        lits = int_literals(t, ctx.rng) if t in INTS else ["0.0", "1.5", "-2.25", "3", "0x10", "100.125", "007.5",
+                                                            "0.1", "3.141592653589793", "16777217.0", "-0.000001", "1234567.890625"]
+        if t in INTS:
+            lits += [x for x in ("5", "1000", "-2", "0x7B") if rng_of(t)[0] <= math_value(x) <= rng_of(t)[1] and x not in lits]
+        pick = lits if ctx.tier == "thorough" else ctx.rng.sample(lits, min(len(lits), 7))
         for lit in pick:
             consts.append((t, lit))
     # witnesses of the listed known findings are probed on every run
